@@ -39,8 +39,8 @@ noop_cb(RegisterTable *t, RegisterHandle h, void *arg)
 
 struct expect {
     int n;
-    RegisterInitCode code[2];
-    long index[2]; /* -1: index not demanded */
+    RegisterInitCode code[4];
+    long index[4]; /* -1: index not demanded */
 };
 
 static void
@@ -98,6 +98,33 @@ reference(const struct tspec *s, struct expect *e)
             return;
         }
     }
+    /* A third admissible reading for the register rules (the statement says
+     * "the first violated rule with the index of the offending register" and
+     * does not say whether "first" is by rule or by register): one pass over
+     * the registers that checks order, overlap, placement and default per
+     * register, reporting the lowest-index register violating any of them. */
+    long sp_idx = -1;
+    RegisterInitCode sp_code = REG_INIT_SUCCESS;
+    for (int i = 0; i < s->nr && sp_idx < 0; ++i) {
+        if (i > 0 && s->r[i].addr < s->r[i - 1].addr) {
+            sp_idx = i; sp_code = REG_INIT_ENTRY_INVALID_ORDER;
+        } else if (i > 0 && (uint64_t)s->r[i].addr < (uint64_t)s->r[i - 1].addr + ref_words(s->r[i - 1].type)) {
+            sp_idx = i; sp_code = REG_INIT_ENTRY_ADDRESS_OVERLAP;
+        } else {
+            const int ai = area_containing_whole(s, &s->r[i]);
+            if (ai < 0) {
+                sp_idx = i; sp_code = REG_INIT_ENTRY_IN_MEMORY_HOLE;
+            } else if (loads_default(s, ai)) {
+                const uint64_t bits = ref_bits(s->r[i].type, s->r[i].def);
+                bool okd = ref_storable(s->r[i].type, bits);
+                if (okd && s->r[i].ckind != K_FAIL)
+                    okd = ref_constraint(&s->r[i], s->r[i].def);
+                if (!okd) {
+                    sp_idx = i; sp_code = REG_INIT_ENTRY_INVALID_DEFAULT;
+                }
+            }
+        }
+    }
     /* group 2: registers ascending and non-overlapping */
     {
         long ord = -1, ovl = -1;
@@ -113,6 +140,8 @@ reference(const struct tspec *s, struct expect *e)
             else expect_add(e, REG_INIT_ENTRY_ADDRESS_OVERLAP, ovl);
             if (ord >= 0 && (ovl < 0 || ord < ovl)) expect_add(e, REG_INIT_ENTRY_INVALID_ORDER, ord);
             else expect_add(e, REG_INIT_ENTRY_ADDRESS_OVERLAP, ovl);
+            if (sp_idx >= 0)
+                expect_add(e, sp_code, sp_idx);
             return;
         }
     }
@@ -145,7 +174,7 @@ reference(const struct tspec *s, struct expect *e)
 static long n_ok, n_bad;
 
 static bool
-one_init(const struct tspec *s, bool preinit, const char *odesc)
+one_init(const struct tspec *s, bool preinit, const char *odesc, bool dirty, long fault_k)
 {
     struct expect e;
     reference(s, &e);
@@ -157,7 +186,21 @@ one_init(const struct tspec *s, bool preinit, const char *odesc)
         tb.t.areas = 1;
         tb.t.entries = 0;
     }
+    if (dirty)
+        /* descriptors built at run time in memory that was not zeroed, or a
+         * table initialised before with another register list */
+        for (int i = 0; i < s->na; ++i) {
+            tb.areas[i].entry.first = 0xa5a5a5a5u;
+            tb.areas[i].entry.last = 0x5a5a5a5au;
+            tb.areas[i].entry.count = 0x01020304u;
+        }
+    /* environment deviation: the fault_k-th write callback of a callback-backed
+     * area answers IO_ERROR while the defaults are loaded */
+    tb.cb_writes = 0;
+    tb.cb_fail_write_at = fault_k;
     RegisterInit ri = register_init(&tb.t);
+    const bool fault_hit = fault_k >= 0 && tb.cb_writes > fault_k;
+    tb.cb_fail_write_at = -1;
     mc_trans(1);
     long idx = -1;
     switch (ri.code) {
@@ -169,11 +212,21 @@ one_init(const struct tspec *s, bool preinit, const char *odesc)
     mc_log("%s preinit=%d -> %s@%ld; reference: %s@%ld%s%s", odesc, preinit, initname(ri.code), idx, initname(e.code[0]), e.index[0],
            e.n > 1 ? " or " : "", e.n > 1 ? initname(e.code[1]) : "");
     bool ok = true;
-    const bool want_success = e.code[0] == REG_INIT_SUCCESS;
+    bool want_success = e.code[0] == REG_INIT_SUCCESS;
     bool match = false;
     for (int i = 0; i < e.n; ++i)
         if (ri.code == e.code[i] && (e.index[i] < 0 || e.index[i] == idx))
             match = true;
+    if (fault_hit) {
+        /* a default could not be stored: any refusal is admissible (whatever
+         * else is wrong with the table); for a well-formed table success is
+         * only admissible if the post-conditions hold all the same */
+        if (ri.code != REG_INIT_SUCCESS) {
+            match = true;
+            want_success = false;
+        } else if (want_success)
+            match = true;
+    }
     if (!match) {
         if (want_success)
             mc_fail("C04/accepts-well-formed", "%s preinit=%d: well-formed table refused with %s@%ld", odesc, preinit, initname(ri.code), idx);
@@ -350,9 +403,16 @@ run_lists(const struct grid *g, const uint32_t *ab, const uint32_t *as, int na, 
                     mkreg(&s.r[i], ra[i], rsz[i], (mask >> (i > 2 ? 2 : i)) & 1, variant + i);
                 char od[64];
                 snprintf(od, sizeof od, "mask=%d opt=%d variant=%d", mask, opt, variant);
-                ok = one_init(&s, false, od);
+                ok = one_init(&s, false, od, false, -1);
                 if (ok && opt == 0)
-                    ok = one_init(&s, true, od);
+                    ok = one_init(&s, true, od, false, -1);
+                /* dirty descriptors and write faults are independent of which
+                 * defaults are bad: run them for the all-good mask only */
+                if (ok && mask == 0 && (opt == 0 || opt == 1 + 2 * na) && variant == 0)
+                    ok = one_init(&s, false, od, true, -1);
+                if (ok && mask == 0 && na > 0 && opt == 1 + 2 * na && variant == 0)
+                    for (long k = 0; k < nr && ok; ++k)
+                        ok = one_init(&s, false, od, false, k);
             }
     mc_end(true, !ok ? "failed" : n_ok == 0 ? "all-refused" : n_bad == 0 ? "all-accepted" : "mixed");
 }
